@@ -149,11 +149,7 @@ func cmdVerify(pat string, to int, dump, verbose bool) int {
 		for _, c := range cs {
 			pkgs[c.Pkg] = true
 		}
-		var pats []string
-		for p := range pkgs {
-			pats = append(pats, p)
-		}
-		sort.Strings(pats)
+		pats := []string{"./..."}
 		eng, err := loadEngine(mod, pats, overlay, db)
 		if err != nil {
 			fmt.Fprintln(os.Stderr, "load error:", err)
